@@ -46,6 +46,8 @@ def spec_of(a):
                          for side in ('before', 'after')}
     if a.get('shared'):
         spec['shared'] = dict(a['shared'])
+    if a.get('rewrite'):
+        spec['rewrite'] = dict(a['rewrite'])
     return spec
 
 
@@ -152,7 +154,7 @@ def status_strings(spec, req):
         if len(res) > 1:
             from_out(res[1])
     for _, eh in spec['errh']:
-        if eh[0] == 'c':
+        if eh[0] in ('c', 'mut'):
             from_out(eh[1])
     if req['route'][0] == 'h':
         from_effs(req['route'][1])
@@ -294,6 +296,9 @@ class C03(Check):
                 pass
             elif rng.random() < .04:
                 req['path_ok'] = False                     # outside C03's domain, inside the model's
+            if i < n and rng.random() < .12:
+                zoo.add_rewrite(rng, spec, req)            # a before-hook rewrites path / method before routing
+                stats['rewrites'] = stats.get('rewrites', 0) + 1
             if i < n and rng.random() < .3 and zoo.json_safe(spec, req):
                 req['json'] = True
                 stats['json'] = stats.get('json', 0) + 1
@@ -303,15 +308,19 @@ class C03(Check):
                 loop = ('r', True, dict(status=code, headers=[], cookies=[]), ('t', 'again'))
                 spec = dict(before=[], after=[], errh=[(code, ('c', loop))])
                 req['route'] = ('h', [], ('ret', loop))
+                req.pop('arrive', None)
                 stats['loops1000'] += 1
             try:
                 obs = zoo.watchdog(lambda: run_real(spec, req), 6 if stats.get('hangs', 0) < 3 else 1)
                 ans = answer(obs)
             except zoo.HangB:
-                obs = dict(urlrepr=zoo.url_repr(zoo.make_environ(req, []), req), starts=[], shape='hang', log=[])
+                env0 = zoo.make_environ(req, [])
+                obs = dict(urlrepr=zoo.url_repr(env0, req), starts=[], shape='hang', log=[],
+                           urlrepr_arrival=zoo.url_repr(env0, req, arrival=True) if req.get('arrive') else None)
                 ans = 'hang'
                 stats['hangs'] = stats.get('hangs', 0) + 1
-            line = 'wsgi serve ' + ' '.join(zoo.ser_app(spec) + zoo.ser_req(req, obs['urlrepr']))
+            line = 'wsgi serve ' + ' '.join(zoo.ser_app(spec) + zoo.ser_req(req, obs['urlrepr'], obs.get('urlrepr_arrival'),
+                                                                         spec.get('rewrite')))
             kind = 'plain200' if (req['route'][0] == 'h' and req['route'][2][0] == 'ret' and
                                   req['route'][2][1][0] == 't' and not spec['before'] and not spec['after'] and
                                   not req['route'][1]) else 'zoo'
@@ -351,6 +360,26 @@ class C03(Check):
         """the property's clauses checked directly on a validated run; returns [(key, what)]"""
         obs = run_real(spec, req, validate=True)
         return self._clauses(spec, req, obs, start_registration(spec))
+
+    def _oracle_rewrite(self, spec, req):
+        """a before-request hook rewrites PATH_INFO / REQUEST_METHOD: before-hooks run before routing, so
+        the answer must be the one the same application gives a request that arrives already rewritten"""
+        bad = self._oracle(spec, req)
+        k = spec['rewrite']['hook']
+        if bad or any(h[1][0] != 'ok' for h in spec['before'][:k]):
+            return bad
+        plain_spec = {x: v for x, v in spec.items() if x != 'rewrite'}
+        plain_req = {x: v for x, v in req.items() if x != 'arrive'}
+        a = run_real(spec, req, validate=True)
+        b = run_real(plain_spec, plain_req, validate=True)
+        for what in ('log', 'starts', 'data'):
+            if a[what] != b[what]:
+                show = lambda o: (o['log'], [s[0] for s in o['starts']], len(o['data']))
+                bad.append(('routing-ignores-before-hooks',
+                            f'request arriving as {req["arrive"]} and rewritten by before-hook {k} answered '
+                            f'{show(a)}; arriving already rewritten: {show(b)}'))
+                break
+        return bad
 
     def _oracle_history(self, spec, hist):
         """a short history on ONE application: every clause must hold for every answer (the second
@@ -486,7 +515,10 @@ class C03(Check):
             for h in spec['before'] + spec['after']:
                 h[0][:] = [e for e in h[0] if not (e[0] == 'sh' and e[2] in zoo.BAD_HVALS)
                            and not (e[0] == 'st' and e[1] in zoo.STATUS_BAD_INTS)]
-            cases.append((spec, g.req()))
+            req = g.req()
+            if rng.random() < .15:
+                zoo.add_rewrite(rng, spec, req)
+            cases.append((spec, req))
         # the planned fault sites, densely: HEAD x every kind of body, un-encodable header x closable iterable
         for _ in range(max(60, n // 20)):
             o = g.out(2, mixed_ok=False)
@@ -517,7 +549,8 @@ class C03(Check):
                 break           # enough replays; the run is failing anyway
             evals += 1
             try:
-                bad = zoo.watchdog(lambda: self._oracle(spec, req), 20)
+                fn = self._oracle_rewrite if spec.get('rewrite') and req.get('arrive') else self._oracle
+                bad = zoo.watchdog(lambda: fn(spec, req), 20)
             except zoo.HangB:
                 bad = [('hang', 'request did not finish within 20 s')]
             for key, what in bad:
@@ -543,15 +576,23 @@ class C03(Check):
             spec = g.app() if rng.random() < .6 else dict(before=[], after=[], errh=[])
             spec.pop('catchall', None)
             spec['shared'] = dict(c09.SHARED)
-            k = rng.choice(repeatable)
-            kinds = [k, k] if rng.random() < .6 else [k, rng.choice(others), k]
+            if rng.random() < .3:
+                spec['errors_map'] = dict(c09.CUSTOM_ERRORS)    # long-lived error objects of the application
+            more = []
+            if rng.random() < .25:
+                spec['default_app'] = True
+                more = c09.HELPER_KINDS
+            k = rng.choice(repeatable + ['custom-status'] + list(more[:1]) + list(more[-2:]))
+            kinds = [k, k] if rng.random() < .4 else [k, k, k] if rng.random() < .5 else [k, rng.choice(others + list(more)), k]
             if rng.random() < .2:
                 kinds = [rng.choice(repeatable + others) for _ in range(rng.choice([2, 3]))]
             hist = []
             for i, kind in enumerate(kinds):
                 c09.RAISE_SINGLETONS[0] = True
                 try:
-                    h = c09.gen_hreq(g, rng, i + 1, kind, spec)
+                    # the same object rendered as HTML and as JSON alternately
+                    h = c09.gen_hreq(g, rng, i + 1, kind, spec, force=dict(json=(i + len(out)) % 2 == 0)
+                                     if kind == k and rng.random() < .7 else None)
                 finally:
                     c09.RAISE_SINGLETONS[0] = False
                 # URLs of clearly different length, alternating representations
@@ -604,7 +645,7 @@ class C03(Check):
             if len(res) > 1:
                 outs.append(res[1])
         for _, eh in spec['errh']:
-            if eh[0] == 'c':
+            if eh[0] in ('c', 'mut'):
                 outs.append(eh[1])
         if req['route'][0] == 'h' and len(req['route'][2]) > 1:
             outs.append(req['route'][2][1])
@@ -620,7 +661,7 @@ class C03(Check):
                 return any(i[0] in ('y', 'rr') and from_out(i[1]) for i in o[3])
             return False
         outs = [res[1] for _, res in spec['before'] + spec['after'] if len(res) > 1]
-        outs += [eh[1] for _, eh in spec['errh'] if eh[0] == 'c']
+        outs += [eh[1] for _, eh in spec['errh'] if eh[0] in ('c', 'mut')]
         if req['route'][0] == 'h' and len(req['route'][2]) > 1:
             outs.append(req['route'][2][1])
         return any(from_out(o) for o in outs)
@@ -636,7 +677,8 @@ class C03(Check):
             return dict(oracle=verdict, violates=bool(verdict), input=data['input'])
         spec, req = dec_case(data['input'])
         try:
-            verdict = zoo.watchdog(lambda: self._oracle(spec, req), 20)
+            fn = self._oracle_rewrite if spec.get('rewrite') and req.get('arrive') else self._oracle
+            verdict = zoo.watchdog(lambda: fn(spec, req), 20)
             obs = zoo.watchdog(lambda: run_real(spec, req, validate=True), 20)
         except zoo.HangB:
             return dict(oracle=[['hang', 'request did not finish within 20 s']], violates=True, input=data['input'])
